@@ -396,3 +396,121 @@ def m_nonzero_new(ctx, cty, a):
 @model("std::num::NonZero::get")
 def m_nonzero_get(ctx, cty, a):
     return a[0].fields[0]
+
+
+# ------------------------------------------------------------------ further map / set operations
+def m_map_drain(ctx, cty, a):
+    m = deref(a[0])
+    order = map_order(ctx, m)
+    ents = [m.entries[i] for i in order]
+    m.entries = []
+    if m.is_set:
+        return seq_iter([e[0] for e in ents], "drain")
+    return seq_iter([tup(e[0], e[1]) for e in ents], "drain")
+
+
+def m_map_pop_first(ctx, cty, a):
+    m = deref(a[0])
+    if not m.entries:
+        return opt_none()
+    e = m.entries.pop(0)
+    return opt_some(e[0]) if m.is_set else opt_some(tup(e[0], e[1]))
+
+
+def m_map_pop_last(ctx, cty, a):
+    m = deref(a[0])
+    if not m.entries:
+        return opt_none()
+    e = m.entries.pop()
+    return opt_some(e[0]) if m.is_set else opt_some(tup(e[0], e[1]))
+
+
+def m_map_remove_entry(ctx, cty, a):
+    m = deref(a[0])
+    i = map_find(ctx, m, a[1])
+    if i is None:
+        return opt_none()
+    e = m.entries.pop(i)
+    return opt_some(tup(e[0], e[1]))
+
+
+def m_map_append(ctx, cty, a):
+    m, o = deref(a[0]), deref(a[1])
+    for k, v in o.entries:
+        map_insert(ctx, m, k, v)
+    o.entries = []
+    return unit()
+
+
+def _set_op(kind):
+    def f(ctx, cty, a):
+        s, o = deref(a[0]), deref(a[1])
+        out = []
+        if kind in ("union",):
+            out = [Ref(e, 0) for e in s.entries]
+            for e in o.entries:
+                if map_find(ctx, s, e[0]) is None:
+                    out.append(Ref(e, 0))
+        elif kind == "intersection":
+            out = [Ref(e, 0) for e in s.entries if map_find(ctx, o, e[0]) is not None]
+        elif kind == "difference":
+            out = [Ref(e, 0) for e in s.entries if map_find(ctx, o, e[0]) is None]
+        elif kind == "symmetric_difference":
+            out = [Ref(e, 0) for e in s.entries if map_find(ctx, o, e[0]) is None] + [Ref(e, 0) for e in o.entries if map_find(ctx, s, e[0]) is None]
+        return seq_iter(out, kind)
+    return f
+
+
+def m_set_is_disjoint(ctx, cty, a):
+    s, o = deref(a[0]), deref(a[1])
+    return all(map_find(ctx, o, e[0]) is None for e in s.entries)
+
+
+def m_set_is_superset(ctx, cty, a):
+    s, o = deref(a[0]), deref(a[1])
+    return all(map_find(ctx, s, e[0]) is not None for e in o.entries)
+
+
+def m_set_is_subset2(ctx, cty, a):
+    s, o = deref(a[0]), deref(a[1])
+    return all(map_find(ctx, o, e[0]) is not None for e in s.entries)
+
+
+def m_set_replace(ctx, cty, a):
+    m = deref(a[0])
+    i = map_find(ctx, m, a[1])
+    if i is None:
+        map_insert(ctx, m, a[1], unit())
+        return opt_none()
+    old = m.entries[i][0]
+    m.entries[i][0] = a[1]
+    return opt_some(old)
+
+
+_reg(["drain"], m_map_drain)
+_reg(["pop_first"], m_map_pop_first)
+_reg(["pop_last"], m_map_pop_last)
+_reg(["remove_entry"], m_map_remove_entry)
+_reg(["append"], m_map_append)
+for _k in ("union", "intersection", "difference", "symmetric_difference"):
+    _reg([_k], _set_op(_k))
+_reg(["is_disjoint"], m_set_is_disjoint)
+_reg(["is_superset"], m_set_is_superset)
+_reg(["is_subset"], m_set_is_subset2)
+_reg(["replace"], m_set_replace)
+
+
+@model_re(r"std::collections::(btree_map|hash_map)::Entry::and_modify$")
+def m_entry_and_modify(ctx, cty, a):
+    e = a[0]
+    if e.variant == 1:
+        ctx.call_closure(a[1], [Ref(e.fields[1], 1, True)])
+    return e
+
+
+@model_re(r"std::collections::(btree_map|hash_map)::Entry::key$")
+def m_entry_key(ctx, cty, a):
+    e = deref(a[0])
+    if e.variant == 1:
+        return Ref(e.fields[1], 0)
+    return Ref(e.fields, 1)
